@@ -232,7 +232,12 @@ func writeIfChanged(name string, content []byte) {
 	if err := os.MkdirAll(*outDir, 0o755); err != nil {
 		die("%v", err)
 	}
-	if err := os.WriteFile(path, content, 0o644); err != nil {
+	// atomic replace: a Coq build of another check may be reading the file
+	tmp := path + ".tmp"
+	if err := os.WriteFile(tmp, content, 0o644); err != nil {
+		die("%v", err)
+	}
+	if err := os.Rename(tmp, path); err != nil {
 		die("%v", err)
 	}
 }
